@@ -48,6 +48,16 @@ def gen_history(rnd, n=None):
             v = rnd.choice(["CWD", "CWD", "MKD", "RMD", "DELE", "RNFR", "RNTO", "MLST", "PWD", "CDUP", "PWD"])
             arg = "" if v in ("PWD", "CDUP") else rnd.choice(PATHS)
             ops.append((v, arg))
+        elif x < 0.37:
+            # the working directory loses an ancestor (renamed away) or is removed: CDUP / PWD /
+            # relative arguments afterwards
+            sub = rnd.choice(["d/e", "d", "/d/e"])
+            ops.append(("CWD", sub))
+            ops.append(("RNFR", rnd.choice(["/d", "/d/e"])))
+            ops.append(("RNTO", rnd.choice(["/dz", "/d2", "/new/d"])))
+            ops.append(("CDUP", ""))
+            ops.append(("PWD", ""))
+            ops.append((rnd.choice(["MLST", "CWD", "MKD"]), rnd.choice(["", ".", "x", ".."])))
         elif x < 0.42:
             ops.append(("RNFR", rnd.choice(PATHS)))
             if rnd.random() < 0.8:
@@ -236,6 +246,8 @@ CORE = [
     [["USER", "anonymous"], ["EPSV", ""], ["REST", "9" * 4301], ["RETR", "f", {"connect": "before"}], ["PWD", ""]],
     [["USER", "anonymous"], ["REST", "١٢"], ["PWD", ""]],
     [["USER", "anonymous"], ["EPSV", "1"], ["PWD", ""]],
+    [["USER", "anonymous"], ["MKD", "a"], ["MKD", "a/b"], ["CWD", "a/b"], ["RNFR", "/a"], ["RNTO", "/z"], ["CDUP", ""], ["PWD", ""], ["CWD", "/z/b"], ["CDUP", ""], ["PWD", ""]],
+    [["USER", "anonymous"], ["CWD", "d/e"], ["RNFR", "/d"], ["RNTO", "/dz"], ["PWD", ""], ["CDUP", ""], ["PWD", ""], ["MLST", ""], ["CWD", ".."], ["PWD", ""]],
     [["USER", "anonymous"], ["RNFR", "f"], ["RNTO", "d/g"], ["RNTO", "h"], ["RNTO", "h2"]],
     [["USER", "anonymous"], ["RNFR", "d"], ["RNTO", "d/e/x"], ["MLST", "d"], ["PWD", ""]],
     [["USER", "anonymous"], ["RNFR", "d/g"], ["RNTO", "f/x"], ["MLST", "d/g"]],
